@@ -16,7 +16,7 @@
 //	select { … }                     -> { __c := ch…; __i, __v := vs.Select(hasDefault, vs.R(__c)…|vs.Snd(ch, v)…); switch __i { case k: x := vs.As(__c, __v); … } }
 //	close(ch)                        -> vs.Close(ch)
 //	for x := range ch  (configured)  -> for __r := ch; ; { x, __ok := vs.Recv2(__r); if !__ok { break }; … }
-//	for k, v := range m (configured) -> for _, __k := range vs.SortedKeys(m) { v, __ok := m[__k]; if !__ok { continue }; k := __k; … }
+//	for k, v := range m (configured) -> for k, v, __it := vsmaps.Start(m); __it.Next(&k, &v); { … }  (ascending keys, ONE shared pair of loop variables)
 //	for … := range x   (any other)   -> for … := range vs.RangeGuard(x)   (run-time failure if x is a channel or a map with >1 entries)
 //	x.(*net.TCPConn)   (configured)  -> x.(vs.HalfCloser)
 //	statements reading a configured racy field -> preceded by vs.Touch("field")
@@ -120,14 +120,15 @@ func define(l []ast.Expr, r ...ast.Expr) *ast.AssignStmt {
 }
 
 type rewriter struct {
-	fset    *token.FileSet
-	file    string
-	cfg     fileCfg
-	pkg     pkgCfg
-	counter int
-	count   map[string]int
-	comm    map[ast.Node]bool // comm statements of select clauses and their receive expressions
-	used    bool
+	fset     *token.FileSet
+	file     string
+	cfg      fileCfg
+	pkg      pkgCfg
+	counter  int
+	count    map[string]int
+	comm     map[ast.Node]bool // comm statements of select clauses and their receive expressions
+	used     bool
+	usedMaps bool
 }
 
 func (r *rewriter) src(n ast.Node) string {
@@ -257,6 +258,40 @@ func (r *rewriter) rewriteGo(g *ast.GoStmt) ast.Stmt {
 	return &ast.BlockStmt{List: pre}
 }
 
+// mapRange rewrites `for k, v := range m {…}` into `for k, v, it := vsmaps.Start(m); it.Next(&k, &v); {…}`: keys in
+// ascending order, m evaluated once, ONE shared pair of loop variables (go < 1.22 semantics), still a for statement
+// (labels, break, continue unchanged).
+func (r *rewriter) mapRange(n *ast.RangeStmt) ast.Stmt {
+	it := r.tmp("it")
+	blank := func(e ast.Expr) bool {
+		if e == nil {
+			return true
+		}
+		i, ok := e.(*ast.Ident)
+		return ok && i.Name == "_"
+	}
+	addr := func(e ast.Expr) ast.Expr {
+		if blank(e) {
+			return id("nil")
+		}
+		return &ast.UnaryExpr{Op: token.AND, X: e}
+	}
+	var init ast.Stmt
+	switch {
+	case n.Tok == token.DEFINE && !blank(n.Key) && !blank(n.Value):
+		init = define([]ast.Expr{n.Key, n.Value, id(it)}, call(sel("vsmaps", "Start"), n.X))
+	case n.Tok == token.DEFINE && !blank(n.Key):
+		init = define([]ast.Expr{n.Key, id(it)}, call(sel("vsmaps", "StartK"), n.X))
+	case n.Tok == token.DEFINE && !blank(n.Value):
+		init = define([]ast.Expr{n.Value, id(it)}, call(sel("vsmaps", "StartV"), n.X))
+	default: // assignment to existing variables, or no variables at all
+		init = define([]ast.Expr{id(it)}, call(sel("vsmaps", "New"), n.X))
+	}
+	cond := call(&ast.SelectorExpr{X: id(it), Sel: id("Next")}, addr(n.Key), addr(n.Value))
+	r.usedMaps = true
+	return &ast.ForStmt{Init: init, Cond: cond, Body: n.Body}
+}
+
 func contains(l []string, s string) bool {
 	for _, x := range l {
 		if x == s {
@@ -284,22 +319,7 @@ func (r *rewriter) rewriteRange(c *astutil.Cursor, n *ast.RangeStmt) {
 		c.Replace(&ast.ForStmt{Init: define([]ast.Expr{id(rv)}, n.X), Body: &ast.BlockStmt{List: body}})
 		r.hit("rangechan")
 	case contains(r.cfg.MapRange, x) || contains(r.pkg.MapRange, x):
-		if (n.Tok != token.DEFINE && n.Key != nil) || !pureRef(n.X) {
-			die("%s: unsupported form of range over map %s", r.file, x)
-		}
-		kv, ok := r.tmp("k"), r.tmp("ok")
-		var body []ast.Stmt
-		var val ast.Expr = id("_")
-		if n.Value != nil {
-			val = n.Value
-		}
-		body = append(body, define([]ast.Expr{val, id(ok)}, &ast.IndexExpr{X: n.X, Index: id(kv)}))
-		body = append(body, &ast.IfStmt{Cond: &ast.UnaryExpr{Op: token.NOT, X: id(ok)}, Body: &ast.BlockStmt{List: []ast.Stmt{&ast.BranchStmt{Tok: token.CONTINUE}}}})
-		if k, isId := n.Key.(*ast.Ident); n.Key != nil && (!isId || k.Name != "_") {
-			body = append(body, define([]ast.Expr{n.Key}, id(kv)))
-		}
-		body = append(body, n.Body.List...)
-		c.Replace(&ast.RangeStmt{Key: id("_"), Value: id(kv), Tok: token.DEFINE, X: call(sel("vs", "SortedKeys"), n.X), Body: &ast.BlockStmt{List: body}})
+		c.Replace(r.mapRange(n))
 		r.hit("maprange")
 	default:
 		n.X = call(sel("vs", "RangeGuard"), n.X)
@@ -552,6 +572,9 @@ func (r *rewriter) rewriteFile(src []byte) []byte {
 	if r.used {
 		astutil.AddNamedImport(fset, f, "vs", shimPath+"vs")
 	}
+	if r.usedMaps {
+		astutil.AddNamedImport(fset, f, "vsmaps", shimPath+"vsmaps")
+	}
 	for k, min := range r.cfg.Min {
 		if r.count[k] < min {
 			die("%s/%s: expected at least %d rewrites of kind %q, found %d — the construct the profile is configured for has disappeared", r.pkg.Dir, r.file, min, k, r.count[k])
@@ -593,9 +616,16 @@ func main() {
 	out := flag.String("out", "/verif/build/ovl-d", "")
 	base := flag.String("base", "", "overlay.json of the default profile (tools/gen) to start from; entries of this profile override it")
 	srcRoot := flag.String("src", "", "read the package sources from this copy of the tree instead of -repo (the overlay still maps onto -repo); used to try a seeded change without touching /repo")
+	mapsOnly := flag.Bool("maps-only", false, "only rewrite range-over-map loops of -pkgs into sorted-key iteration (verifshim/vsmaps); no sync/time/chan rewriting, no dependency on verifshim/vs")
+	pkgs := flag.String("pkgs", "controller", "maps-only: comma separated package directories")
+	extraMaps := flag.String("maps", "", "maps-only: comma separated source texts of additional range operands to treat as maps")
 	flag.Parse()
 	if *srcRoot == "" {
 		*srcRoot = *repo
+	}
+	if *mapsOnly {
+		runMapsOnly(*repo, *verif, *out, *base, strings.Split(*pkgs, ","), strings.Split(*extraMaps, ","))
+		return
 	}
 	replace := map[string]string{}
 	if *base != "" {
@@ -653,7 +683,7 @@ func main() {
 			}
 		}
 	}
-	for _, sp := range []string{"vs", "vsync", "vtimev"} {
+	for _, sp := range []string{"vs", "vsync", "vtimev", "vsmaps"} {
 		ents, err := os.ReadDir(filepath.Join(*verif, "shim", sp))
 		if err != nil {
 			die("%v", err)
@@ -680,4 +710,324 @@ func main() {
 		}
 	}
 	fmt.Fprintf(os.Stderr, "instr: %d files, %d rewrites, %d overlay entries\n", len(keys), tot, len(replace))
+}
+
+// ---------------------------------------------------------------------------------------------------------------
+// maps-only mode (used by bin/build for the engines that run on the default overlay of tools/gen)
+//
+//	instr -maps-only -pkgs controller -repo R -verif /verif -base <gen overlay.json> -out DIR
+//
+// rewrites ONLY the `for … := range <map>` loops of the non-test files of the listed packages into
+// `for k, v, it := vsmaps.Start(m); it.Next(&k, &v); {…}` (ascending key order; ONE shared pair of loop variables as
+// in go < 1.22; m evaluated once; still a for statement).  The file that is rewritten is the one the base overlay
+// already provides for that path (so the time->vtime import rewrite of tools/gen is kept), else the file in R.
+// Output: DIR/<pkg>/<file>.go (only files that contain such a loop), DIR/overlay.json = base + these files +
+// R/verifshim/vsmaps/vsmaps.go -> /verif/shim/vsmaps/vsmaps.go, DIR/maps-summary.json (every range statement of the
+// packages with its classification).
+//
+// The rewrite is type-free; whether a range operand is a map is decided syntactically from the package's own
+// declarations: an identifier that the enclosing function (or the package) declares with a map type, `make(map…)`
+// or a map composite literal; a selector x.f where every struct field named f declared in the package has a map type.
+// Operands that cannot be classified are left alone and listed as "unknown" in the summary; a field name declared
+// both with a map type and with another type makes the generation fail (add it to -maps or rename).
+func runMapsOnly(repo, verif, out, base string, pkgs, extra []string) {
+	replace := map[string]string{}
+	if base != "" {
+		var bo struct{ Replace map[string]string }
+		b, err := os.ReadFile(base)
+		if err != nil {
+			die("base overlay: %v", err)
+		}
+		if err := json.Unmarshal(b, &bo); err != nil {
+			die("base overlay: %v", err)
+		}
+		for k, v := range bo.Replace {
+			replace[k] = v
+		}
+	}
+	type rangeInfo struct {
+		File, Func, Operand, Class string
+		Line                       int
+	}
+	var summary []rangeInfo
+	nrew := 0
+	for _, pd := range pkgs {
+		pd = strings.TrimSpace(pd)
+		if pd == "" {
+			continue
+		}
+		dir := filepath.Join(repo, pd)
+		ents, err := os.ReadDir(dir)
+		if err != nil {
+			die("package %s: %v", pd, err)
+		}
+		fset := token.NewFileSet()
+		type pf struct {
+			name string
+			src  []byte
+			f    *ast.File
+		}
+		var files []*pf
+		for _, e := range ents {
+			n := e.Name()
+			if e.IsDir() || !strings.HasSuffix(n, ".go") || strings.HasSuffix(n, "_test.go") {
+				continue
+			}
+			path := filepath.Join(dir, n)
+			if alt, ok := replace[path]; ok {
+				path = alt
+			}
+			src, err := os.ReadFile(path)
+			if err != nil {
+				die("%v", err)
+			}
+			f, err := parser.ParseFile(fset, n, src, 0)
+			if err != nil {
+				die("parse %s/%s: %v", pd, n, err)
+			}
+			files = append(files, &pf{n, src, f})
+		}
+		// field names and package-level variables with map / non-map types
+		mapField, otherField, pkgMapVar := map[string]bool{}, map[string]bool{}, map[string]bool{}
+		isMapExpr := func(e ast.Expr) bool {
+			switch x := e.(type) {
+			case *ast.CompositeLit:
+				_, ok := x.Type.(*ast.MapType)
+				return ok
+			case *ast.CallExpr:
+				if i, ok := x.Fun.(*ast.Ident); ok && i.Name == "make" && len(x.Args) > 0 {
+					_, ok := x.Args[0].(*ast.MapType)
+					return ok
+				}
+			}
+			return false
+		}
+		// results of the package's own functions/methods, by name: per result position "map" / "other" / "mixed"
+		funcRes := map[string][]string{}
+		for _, p := range files {
+			for _, d := range p.f.Decls {
+				fd, ok := d.(*ast.FuncDecl)
+				if !ok || fd.Type.Results == nil {
+					continue
+				}
+				var res []string
+				for _, fl := range fd.Type.Results.List {
+					_, isMap := fl.Type.(*ast.MapType)
+					n := len(fl.Names)
+					if n == 0 {
+						n = 1
+					}
+					for i := 0; i < n; i++ {
+						if isMap {
+							res = append(res, "map")
+						} else {
+							res = append(res, "other")
+						}
+					}
+				}
+				if old, ok := funcRes[fd.Name.Name]; ok {
+					if len(old) != len(res) {
+						funcRes[fd.Name.Name] = nil
+						continue
+					}
+					for i := range res {
+						if old[i] != res[i] {
+							res[i] = "mixed"
+						}
+					}
+				}
+				funcRes[fd.Name.Name] = res
+			}
+		}
+		for _, p := range files {
+			ast.Inspect(p.f, func(n ast.Node) bool {
+				if st, ok := n.(*ast.StructType); ok {
+					for _, fl := range st.Fields.List {
+						_, isMap := fl.Type.(*ast.MapType)
+						for _, nm := range fl.Names {
+							if isMap {
+								mapField[nm.Name] = true
+							} else {
+								otherField[nm.Name] = true
+							}
+						}
+					}
+				}
+				return true
+			})
+			for _, d := range p.f.Decls {
+				if gd, ok := d.(*ast.GenDecl); ok && gd.Tok == token.VAR {
+					for _, sp := range gd.Specs {
+						vs := sp.(*ast.ValueSpec)
+						_, isMap := vs.Type.(*ast.MapType)
+						for i, nm := range vs.Names {
+							if isMap || (i < len(vs.Values) && isMapExpr(vs.Values[i])) {
+								pkgMapVar[nm.Name] = true
+							}
+						}
+					}
+				}
+			}
+		}
+		for _, p := range files {
+			r := &rewriter{fset: fset, file: p.name, count: map[string]int{}}
+			for _, d := range p.f.Decls {
+				fd, ok := d.(*ast.FuncDecl)
+				if !ok || fd.Body == nil {
+					continue
+				}
+				// identifiers the function declares as maps (scoping is ignored: a name is a map if any declaration says so)
+				local, localOther := map[string]bool{}, map[string]bool{}
+				if fd.Type.Params != nil {
+					for _, fl := range fd.Type.Params.List {
+						_, isMap := fl.Type.(*ast.MapType)
+						for _, nm := range fl.Names {
+							if isMap {
+								local[nm.Name] = true
+							} else {
+								localOther[nm.Name] = true
+							}
+						}
+					}
+				}
+				ast.Inspect(fd.Body, func(n ast.Node) bool {
+					switch x := n.(type) {
+					case *ast.AssignStmt:
+						if ce, ok := x.Rhs[0].(*ast.CallExpr); ok && x.Tok == token.DEFINE && len(x.Rhs) == 1 && !isMapExpr(ce) {
+							name := ""
+							switch f := ce.Fun.(type) {
+							case *ast.Ident:
+								name = f.Name
+							case *ast.SelectorExpr:
+								if _, isPkg := f.X.(*ast.Ident); !isPkg || true {
+									name = f.Sel.Name
+								}
+							}
+							if res := funcRes[name]; len(res) == len(x.Lhs) && len(res) > 0 {
+								for i, l := range x.Lhs {
+									if id, ok := l.(*ast.Ident); ok && id.Name != "_" {
+										switch res[i] {
+										case "map":
+											local[id.Name] = true
+										case "other":
+											localOther[id.Name] = true
+										}
+									}
+								}
+								return true
+							}
+						}
+						if x.Tok == token.DEFINE && len(x.Lhs) == len(x.Rhs) {
+							for i, l := range x.Lhs {
+								if id, ok := l.(*ast.Ident); ok {
+									if isMapExpr(x.Rhs[i]) {
+										local[id.Name] = true
+									} else {
+										localOther[id.Name] = true
+									}
+								}
+							}
+						}
+					case *ast.ValueSpec:
+						_, isMap := x.Type.(*ast.MapType)
+						for i, nm := range x.Names {
+							if isMap || (i < len(x.Values) && isMapExpr(x.Values[i])) {
+								local[nm.Name] = true
+							} else {
+								localOther[nm.Name] = true
+							}
+						}
+					}
+					return true
+				})
+				classify := func(e ast.Expr) string {
+					if contains(extra, r.src(e)) {
+						return "map"
+					}
+					switch x := e.(type) {
+					case *ast.Ident:
+						switch {
+						case local[x.Name] && !localOther[x.Name]:
+							return "map"
+						case local[x.Name]:
+							die("%s/%s: %s is declared both as a map and as something else in %s; use -maps", pd, p.name, x.Name, fd.Name.Name)
+						case localOther[x.Name]:
+							return "other"
+						case pkgMapVar[x.Name]:
+							return "map"
+						}
+						return "unknown"
+					case *ast.SelectorExpr:
+						switch {
+						case mapField[x.Sel.Name] && !otherField[x.Sel.Name]:
+							return "map"
+						case mapField[x.Sel.Name]:
+							die("%s/%s: field name %s is declared with a map type and with another type in the package; use -maps for %s", pd, p.name, x.Sel.Name, r.src(e))
+						case otherField[x.Sel.Name]:
+							return "other"
+						}
+						return "unknown"
+					case *ast.CompositeLit, *ast.CallExpr:
+						if isMapExpr(e) {
+							return "map"
+						}
+					}
+					return "unknown"
+				}
+				astutil.Apply(fd.Body, nil, func(c *astutil.Cursor) bool {
+					n, ok := c.Node().(*ast.RangeStmt)
+					if !ok {
+						return true
+					}
+					cl := classify(n.X)
+					summary = append(summary, rangeInfo{File: pd + "/" + p.name, Func: fd.Name.Name, Operand: r.src(n.X), Class: cl, Line: fset.Position(n.Pos()).Line})
+					if cl == "map" {
+						c.Replace(r.mapRange(n))
+						r.count["maprange"]++
+					}
+					return true
+				})
+			}
+			if r.count["maprange"] == 0 {
+				continue
+			}
+			astutil.AddNamedImport(fset, p.f, "vsmaps", shimPath+"vsmaps")
+			var b bytes.Buffer
+			for _, l := range strings.Split(string(p.src), "\n") {
+				t := strings.TrimSpace(l)
+				if strings.HasPrefix(t, "package ") {
+					break
+				}
+				if strings.HasPrefix(t, "//go:build") || strings.HasPrefix(t, "// +build") {
+					b.WriteString(t + "\n")
+				}
+			}
+			if b.Len() > 0 {
+				b.WriteString("\n")
+			}
+			b.WriteString("// Code generated by /verif/tools/instr -maps-only from " + filepath.Join(pd, p.name) + "; DO NOT EDIT.\n\n")
+			if err := format.Node(&b, fset, p.f); err != nil {
+				die("print %s: %v", p.name, err)
+			}
+			if _, err := parser.ParseFile(token.NewFileSet(), p.name, b.Bytes(), 0); err != nil {
+				die("rewritten %s does not parse: %v", p.name, err)
+			}
+			dst := filepath.Join(out, pd, p.name)
+			writeIfChanged(dst, b.Bytes())
+			replace[filepath.Join(dir, p.name)] = dst
+			nrew += r.count["maprange"]
+		}
+	}
+	replace[filepath.Join(repo, "verifshim", "vsmaps", "vsmaps.go")] = filepath.Join(verif, "shim", "vsmaps", "vsmaps.go")
+	b, _ := json.MarshalIndent(map[string]interface{}{"Replace": replace}, "", " ")
+	writeIfChanged(filepath.Join(out, "overlay.json"), b)
+	sb, _ := json.MarshalIndent(summary, "", " ")
+	writeIfChanged(filepath.Join(out, "maps-summary.json"), sb)
+	unk := 0
+	for _, s := range summary {
+		if s.Class == "unknown" {
+			unk++
+		}
+	}
+	fmt.Fprintf(os.Stderr, "instr -maps-only: %d range-over-map loops rewritten, %d range statements unclassified (left alone), %d overlay entries\n", nrew, unk, len(replace))
 }
